@@ -22,7 +22,7 @@ VERIF = '/verif'
 CHECKS = ['C%02d' % i for i in range(1, 21) if i != 15]
 
 OPS = [
-    (r'(?<![<>=!-])<=(?!=)', ['<']), (r'(?<![<>=!-])>=(?!=)', ['>']), (r'(?<![<>=!&|-])<(?![<=])', ['<=']), (r'(?<![<>=!&|-])(?<!-)>(?![>=])', ['>=']),
+    (r' <= ', [' < ']), (r' >= ', [' > ']), (r' < ', [' <= ']), (r'(?<![-=]) > ', [' >= ']),
     (r'==', ['!=']), (r'!=', ['==']), (r'&&', ['||']), (r'\|\|', ['&&']),
     (r'\+ 1\b', ['+ 0', '+ 2']), (r'- 1\b', ['- 0']), (r'\btrue\b', ['false']), (r'\bfalse\b', ['true']),
     (r'\.not\(\)', ['']), (r'!(?=[a-z_(])', ['']), (r'\.is_some\(\)', ['.is_none()']), (r'\.is_none\(\)', ['.is_some()']),
